@@ -51,7 +51,7 @@ FIELD_NAMES = {
 }
 ENUM_NAMES = ["Color", "Kind", "Status", "Mode", "level", "HTTPMethod", "Type_"]
 ENUM_VALUE_WORDS = ["UNKNOWN", "RED", "ON", "OFF", "A", "B", "None", "DEFAULT", "V1", "x", "lower_val", "CamelVal", "TWO_WORDS"]
-SERVICE_NAMES = ["Svc", "Greeter", "DataAPI", "lower_service", "HTTPService"]
+SERVICE_NAMES = ["Svc", "Greeter", "DataAPI", "lower_service", "HTTPService", "_3DSecure", "__2fa", "none", "Type"]
 METHOD_NAMES = ["Get", "List", "DoThing", "get_item", "StreamIt", "HTTPCall", "import", "class", "Print", "Send2", "x"]
 
 
@@ -202,7 +202,7 @@ def schema_ast(draw, max_packages=3, services=True, markers=True):
             for sname in draw(st.lists(st.sampled_from(SERVICE_NAMES), min_size=1, max_size=2, unique=True)):
                 mnames = draw(st.lists(st.sampled_from(METHOD_NAMES), min_size=1, max_size=4, unique_by=norm_name))
                 methods = [{"name": mn, "input": draw(io_pool), "output": draw(io_pool), "cs": draw(st.booleans()), "ss": draw(st.booleans()),
-                            "comment": draw(st.sampled_from(["", "rpc comment"]))} for mn in mnames]
+                            "comment": draw(st.sampled_from(["", "rpc comment"])), "deprecated": draw(st.integers(0, 5)) == 0} for mn in mnames]
                 svcs.append({"name": sname, "methods": methods, "comment": draw(st.sampled_from(["", "service comment"]))})
             fobj["services"] = svcs
     return {"files": files}
@@ -280,7 +280,8 @@ def render(ast) -> Dict[str, str]:
             body += _comment(svc.get("comment", ""), "") + f"service {svc['name']} {{\n"
             for me in svc["methods"]:
                 body += _comment(me.get("comment", ""), "  ")
-                body += f"  rpc {me['name']} ({'stream ' if me['cs'] else ''}.{me['input']}) returns ({'stream ' if me['ss'] else ''}.{me['output']});\n"
+                body += (f"  rpc {me['name']} ({'stream ' if me['cs'] else ''}.{me['input']}) returns ({'stream ' if me['ss'] else ''}.{me['output']})"
+                         + (" { option deprecated = true; }\n" if me.get("deprecated") else ";\n"))
             body += "}\n"
         imports = set()
         for w in re.findall(r"\.google\.protobuf\.(\w+)", body):
